@@ -552,6 +552,16 @@ func alphabet(nExt int, withInt bool, reduced bool) []string {
 		}
 	}
 	out = append(out, "RT:next")
+	if nExt == 0 {
+		// registering under the name of an external extension needs one
+		var f []string
+		for _, a := range out {
+			if a != "I0:regas:e0" {
+				f = append(f, a)
+			}
+		}
+		out = f
+	}
 	return out
 }
 
@@ -696,7 +706,9 @@ func init() {
 		if tier == "quick" {
 			out = append(out, seqScenarios(1, true, false, 3)...)
 			out = append(out, seqScenarios(2, true, true, 3)...)
+			out = append(out, seqScenarios(0, true, false, 4)...) // internal extension + runtime only, one step deeper
 		} else {
+			out = append(out, seqScenarios(0, true, false, 5)...)
 			out = append(out, seqScenarios(1, true, false, 4)...)
 			out = append(out, seqScenarios(2, true, true, 4)...)
 		}
